@@ -1637,11 +1637,6 @@ static void do_source_file(const char *filename_in,
    {
       fclose(pfout);
 
-      if (need_backup)
-      {
-         backup_create_md5_file(filename_in);
-      }
-
       if (filename_tmp != filename_out)
       {
          // We need to compare and then do a rename (but avoid redundant test when if_changed set)
@@ -1670,6 +1665,12 @@ static void do_source_file(const char *filename_in,
                exit(EX_IOERR);
             }
          }
+      }
+
+      if (need_backup)
+      {
+         // the md5 has to describe what is in the file now, i.e. after the rename
+         backup_create_md5_file(filename_in);
       }
 
       if (keep_mtime)
